@@ -127,6 +127,7 @@ func (f *Frame) call(site ssa.Instruction, common *ssa.CallCommon, pos token.Pos
 			}
 		}
 	}
+	f.curCallArgs = common.Args
 	f.curArgTypes = nil
 	f.curResTypes = common.Signature().Results()
 	if common.IsInvoke() {
@@ -219,7 +220,10 @@ func (f *Frame) havocAllExcept(keep []string) {
 	defer func() {
 		// cells of non-escaping locals cannot be written by any callee
 		for fr := f; fr != nil; fr = fr.parent {
-			for _, l := range fr.private {
+			for i, l := range fr.private {
+				if i < len(fr.privateAllocs) && passedToCurrentCall(f, fr.privateAllocs[i]) {
+					continue // its address is an argument of this very call: the callee may write it
+				}
 				for _, hv := range e.heapVarsOfLoc(l) {
 					now, old := e.hget(f.heap, hv), e.hget(before, hv)
 					if now != old {
@@ -560,6 +564,9 @@ func (f *Frame) applyContractEnv(con *Contract, names []string, args []Val, sig 
 			e.unsupp(fmt.Sprintf("ensures of %s: %v", disp, err))
 			continue
 		}
+		if c.Trusted {
+			e.note(fmt.Sprintf("trusted (unproved) postcondition of %s used at a call: %s", disp, c.Src))
+		}
 		e.assumeAt(f.curReach, t)
 	}
 	return out
@@ -773,12 +780,21 @@ func (f *Frame) ghostHooksNamed(siteKey string, args []Val, res Val, after bool,
 		return
 	}
 	var stmts []GhostStmt
+	if e.hooksFired == nil {
+		e.hooksFired = map[string]bool{}
+	}
 	if f.top {
 		stmts = e.con.AtCalls[siteKey]
+		if len(stmts) > 0 {
+			e.hooksFired[siteKey] = true
+		}
 	}
 	// wildcard: callee#* applies to every call of that callee, also inside inlined helpers
 	if i := strings.LastIndex(siteKey, "#"); i >= 0 {
-		stmts = append(append([]GhostStmt{}, stmts...), e.con.AtCalls[siteKey[:i]+"#*"]...)
+		if ws := e.con.AtCalls[siteKey[:i]+"#*"]; len(ws) > 0 {
+			e.hooksFired[siteKey[:i]+"#*"] = true
+			stmts = append(append([]GhostStmt{}, stmts...), ws...)
+		}
 	}
 	for _, gs := range stmts {
 		if gs.After != after {
@@ -1090,7 +1106,7 @@ func (e *Enc) contractWrites(con *Contract, callee *ssa.Function, sig *types.Sig
 			tpkg = pp
 		}
 	}
-	env := &SpecEnv{e: e, heap: &Heap{m: map[string]string{}}, pkg: tpkg, names: map[string]specVal{}}
+	env := &SpecEnv{e: e, heap: &Heap{m: map[string]string{}}, pkg: tpkg, names: map[string]specVal{}, noFacts: true}
 	if callee != nil {
 		for _, p := range callee.Params {
 			env.names[p.Name()] = specVal{v: Val{T: "0"}, t: p.Type()}
@@ -1138,8 +1154,6 @@ func (f *Frame) panicExitCheck(siteKey string, pos token.Pos) {
 	saved := f.heap
 	f.heap = saved.clone()
 	f.inPanicSim = true
-	mark := e.body.Len()
-	_ = mark
 	for i := len(f.defers) - 1; i >= 0; i-- {
 		d := f.defers[i]
 		var callee *ssa.Function
@@ -1264,4 +1278,30 @@ func (f *Frame) functionalResult(sym string, args []Val, common *ssa.CallCommon,
 	v := Val{T: e.define(hint, e.S.sortOf(rt), fmt.Sprintf("(%s %s)", name, strings.Join(terms, " ")))}
 	e.assumeWF("", v.T, rt)
 	return v
+}
+
+// passedToCurrentCall: a pointer into the local cell al is among the arguments
+// of the call being encoded (in f or in one of the frames it is inlined into).
+func passedToCurrentCall(f *Frame, al *ssa.Alloc) bool {
+	for fr := f; fr != nil; fr = fr.parent {
+		for _, a := range fr.curCallArgs {
+			v := a
+			for v != nil {
+				switch x := v.(type) {
+				case *ssa.Alloc:
+					if x == al {
+						return true
+					}
+					v = nil
+				case *ssa.FieldAddr:
+					v = x.X
+				case *ssa.IndexAddr:
+					v = x.X
+				default:
+					v = nil
+				}
+			}
+		}
+	}
+	return false
 }
